@@ -344,7 +344,7 @@ def mg64_cases(rng, N):
 
 
 def cases(tier, rng, extended=False):
-    scale = 1 if tier == "quick" else 30
+    scale = 1 if tier == "quick" else 10   # the pipeline keeps all cases in memory (~0.5 GB per unit)
     if extended:
         scale *= 10
     yield from mg64_cases(rng, 4000 * scale)
